@@ -545,8 +545,7 @@ Definition cab_w (e : entry pd) : bool :=
   text_ok (e_name e) && negb (is_nil (c_wires (e_cab e))) &&
   forallb (fun n : str * str * list pd => ident_w (fst (fst n))) (emit_cable (e_ident e) (e_name e) (e_cab e)) &&
   if is_busb (e_cab e)
-  then match e_name e with c :: _ => negb (N.eqb c c_bsl) | [] => true end &&
-       (c_lower (e_cab e) + N.of_nat (List.length (c_wires (e_cab e))) <=? 65536)
+  then (c_lower (e_cab e) + N.of_nat (List.length (c_wires (e_cab e))) <=? 65536)
   else N.eqb (c_lower (e_cab e)) 0 &&
        match net_bit (e_ident e) (e_name e) with Some (None, _, _) => true | _ => false end.
 
